@@ -108,6 +108,6 @@ func C07(tier string) int {
 		Rule: "breadth-first enumeration of all programs within the bound (write transactions with page-freeing bodies, nested bucket create/delete/move, readers of different ages, rollbacks, reopen with other freelist backend / sync setting) from each seed and configuration; after every commit, rollback, failed commit (scope c07-fault: every single I/O failure of every commit, with a reader held across) and reopen the independent decoder boltfmt must classify every page below the high-water mark as exactly one of meta / freelist / reachable once / listed free once, with ordered keys and in-page elements, and Stats, Tx.Page and Tx.Check must agree; a state is a distinct exact state key",
 		Assumptions: []string{"boltfmt implements the published version-2 layout (cross-checked against the API dump and the reference model on every state)",
 			"bounded alphabets; page sizes 1024 (quick) and 1024/4096/16384 (thorough)"},
-		Quick: 100 * time.Second, Thorough: 25 * time.Minute,
+		Quick: 100 * time.Second, Thorough: 10 * time.Minute,
 	}, tier)
 }
